@@ -67,9 +67,10 @@ PROPS["C08"] = {
             "mc": [
                 {"module": "UnifierBreaker", "cfg": "UnifierBreaker_mc.cfg"},
                 {"module": "UnifierBreakerLive", "cfg": "UnifierBreaker_live.cfg"},
+                {"module": "UnifierBreakerConc", "cfg": "UnifierBreakerConc_mc.cfg"},
             ],
-            "quick": {"gen": [{"module": "UnifierBreakerGen", "cfg": "UnifierBreaker_gen.cfg", "params": {"ReachLen": 10, "SufLen": 3}}]},
-            "thorough": {"gen": [{"module": "UnifierBreakerGen", "cfg": "UnifierBreaker_gen.cfg", "params": {"ReachLen": 12, "SufLen": 5}}]},
+            "quick": {"gen": [{"module": "UnifierBreakerGen", "cfg": "UnifierBreaker_gen.cfg", "params": {"ReachLen": 10, "SufLen": 3, "Races": "{2, 5}"}}]},
+            "thorough": {"gen": [{"module": "UnifierBreakerGen", "cfg": "UnifierBreaker_gen.cfg", "params": {"ReachLen": 12, "SufLen": 5, "Races": "{2, 4, 5}"}}]},
             "pkg": "internal/adapter/unifier", "test": "TestVerif_UnifierBreaker",
             "trace": {"module": "UnifierBreakerTrace", "cfg": "UnifierBreaker_trace.cfg"},
             "nontrivial": breaker_nontrivial,
